@@ -27,6 +27,11 @@ for pid, d in sorted(CHECKS.items()):
         "level_note": d["note"],
         "technique": d["technique"],
     })
+have = {c["property_id"] for c in checks} | {n["property_id"] for n in na}
+for i in range(1, 21):
+    pid = f"C{i:02d}"
+    if pid not in have:
+        na.append({"property_id": pid, "reason": "checker not built yet (static rule set designed in DESIGN.md section 3); not claimed until it exists"})
 m = {
     "version": 1,
     "setup_cmd": "true",
